@@ -77,6 +77,14 @@ def work_kind(spec, rec, kind):
             rec.hit("generated_decided")
             rec.violation(f"generated:{classify(detail, rendering)}", f"{kind} rendering {rendering[:200]!r} of {sympy.srepr(e)[:200]}: {detail[:200]}",
                           {"srepr": sympy.srepr(e)[:1500], "rendering": rendering[:400], "detail": detail[:300]})
+        elif detail.startswith("parse") and all(isinstance(f_, sympy.core.function.AppliedUndef) or type(f_).__name__ in ("sin", "cos", "exp", "log", "Abs", "tan", "sinh", "atan")
+                                                for f_ in e.atoms(sympy.Function)):
+            # (deep trees make SymPy introduce re/im/atan2/arg itself: those stay inconclusive)
+            # a canonical tree over symbols, numbers, elementary and library functions only uses constructs the own
+            # reader covers: a rendering it cannot read is ill-formed (e.g. an exponent that lost its braces)
+            rec.hit("generated_decided")
+            rec.violation("generated:unreadable", f"{kind} rendering {rendering[:200]!r} of {sympy.srepr(e)[:200]} cannot be read as mathematics: {detail[:160]}",
+                          {"srepr": sympy.srepr(e)[:1500], "rendering": rendering[:400], "detail": detail[:300]})
         else:
             rec.inconc("generated: " + detail.split(":")[0][:50])
     # (a') source-form style: the same generator run with evaluation disabled (the shape in which law authors write their
@@ -134,8 +142,13 @@ def work_kind(spec, rec, kind):
             k = r.random()
             if k < 0.4:
                 fs.append(r.choice(syms))
-            elif k < 0.6:
+            elif k < 0.52:
                 fs.append(sympy.Integer(r.choice([2, 3, 4, 5, 10, 12, 100])))
+            elif k < 0.6:
+                # negative factors: a negative literal, a negated symbol, a negated quotient (sign extraction of the printers)
+                s_ = r.choice(syms)
+                fs.append(r.choice([sympy.Integer(-2), sympy.Integer(-1), sympy.Mul(-1, s_, evaluate=False), sympy.Rational(-3, 2),
+                                    sympy.Mul(-1, s_, sympy.Pow(r.choice(syms), -1, evaluate=False), evaluate=False)]))
             elif k < 0.7:
                 fs.append(sympy.Float(r.choice([0.5, 2.405, 1e-3, 3.5e4])))
             elif k < 0.78:
